@@ -134,8 +134,20 @@ func corpusShards() []*Input {
 	return out
 }
 
+// linkedTwo: like linked, two hosts on the backend.
+func linkedTwo(h1, h2 HostSpec) *Input {
+	in := linked(h1, false)
+	h2.Backend = "d_app_8080"
+	in.Steps[0].Hosts = append(in.Steps[0].Hosts, h2)
+	return in
+}
+
 func corpusLinked() []*Input {
 	return []*Input{
+		// paths of one backend with different per path configurations (path ACLs, id maps): two hosts,
+		// and one host with two paths
+		linkedTwo(HostSpec{Name: "a.local", Crt: "a", Content: "a-v1", PathCfg: "sslredir"}, HostSpec{Name: "b.local"}),
+		linkedTwo(HostSpec{Name: "c.local", PathCfg: "hsts", Path2Cfg: "body"}, HostSpec{Name: "d.local", PathCfg: "allow"}),
 		linked(HostSpec{Name: "secure.local", Crt: "sec", Content: "sec-v1", AuthTLS: "ca-v1"}, false),
 		linked(HostSpec{Name: "plain.local"}, false),
 		linked(HostSpec{Name: "pass.local", Passthrough: true}, false),
